@@ -39,7 +39,7 @@ def optPdu : Option Pdu → String
 
 def cnt (p : P) : String := s!"rc={p.rxCnt} tc={p.txCnt}"
 
-def drvStep (s : Sys) (ws0 : List String) : Sys × String :=
+def sysStep (s : Sys) (ws0 : List String) : Sys × String :=
   let (a, ws) := parseAlloc ws0
   match ws with
   | ["reset", _] => (Sys.init, "ok")
@@ -86,4 +86,67 @@ def drvStep (s : Sys) (ws0 : List String) : Sys × String :=
       | _, _ => (s, "bad-op")
   | _ => (s, "bad-op")
 
-def main : IO Unit := lineLoop drvStep Sys.init
+/-! ### harness key "nrf52": the CCM configuration of the nRF52 binding next to the buffer -/
+
+structure Drv where
+  sys : Sys
+  ccm : Ccm
+  enc : Bool      -- an `enc` op was seen since `reset`: exchanges report the nonces
+
+def Drv.init : Drv := { sys := Sys.init, ccm := Ccm.init, enc := false }
+
+def nonceStr : Option Nonce → String
+  | none => "plain"
+  | some (c, d, iv) => s!"{toHex (c.map UInt8.ofNat)}:{d}:{toHex (iv.map UInt8.ofNat)}"
+
+def applyN (n : Nat) (f : Ccm → Ccm) (h : Ccm) : Ccm := (List.range n).foldl (fun h _ => f h) h
+
+/-- the answer PDU in an `rx` / `ev` output line (`r=<hex>` or `r=none`) -/
+def answerLen (line : String) : Option Nat :=
+  match (line.splitOn " ").filter (·.startsWith "r=") with
+  | w :: _ =>
+      match parseHex ((w.drop 2).toString) with
+      | some (_ :: len :: _) => some len.toNat
+      | _ => none
+  | [] => none
+
+def drvStep (d : Drv) (ws0 : List String) : Drv × String :=
+  match ws0 with
+  | ["enc", "setup", ivm, ivs] =>
+      match parseHex ivm, parseHex ivs with
+      | some a, some b =>
+          if a.length = 4 ∧ b.length = 4 then
+            let h := d.ccm.setup (a.map (·.toNat)) (b.map (·.toNat))
+            ({ d with ccm := h, enc := true }, s!"iv={toHex (h.iv.map UInt8.ofNat)}")
+          else (d, "bad-op")
+      | _, _ => (d, "bad-op")
+  | ["enc", "rx"] => ({ d with ccm := d.ccm.configure true false, enc := true }, "ok")
+  | ["enc", "rxtx"] => ({ d with ccm := d.ccm.configure true true, enc := true }, "ok")
+  | ["enc", "tx"] => ({ d with ccm := d.ccm.configure false true, enc := true }, "ok")
+  | ["enc", "off"] => ({ d with ccm := d.ccm.configure false false, enc := true }, "ok")
+  | _ =>
+      let exchange := match ws0 with
+        | "rx" :: _ => true
+        | "ev" :: _ => true
+        | _ => false
+      let (s', line) := sysStep d.sys ws0
+      if line = "bad-op" then (d, line)
+      else
+        let isReset := match ws0 with
+          | "reset" :: _ => true
+          | _ => false
+        if isReset then ({ Drv.init with sys := s' }, line)
+        else
+          -- src: nrf52.hpp radio_interrupt_handler: configure_receive_train before the reception,
+          -- the counter callbacks from received() / acknowledge(), configure_final_transmit( answer )
+          let (h1, rn) := if exchange then d.ccm.receiveTrain else (d.ccm, none)
+          let h2 := applyN (s'.p.txCnt - d.sys.p.txCnt) Ccm.incTx (applyN (s'.p.rxCnt - d.sys.p.rxCnt) Ccm.incRx h1)
+          if exchange then
+            match answerLen line with
+            | some len =>
+                let (h3, tn) := h2.finalTransmit len
+                ({ d with sys := s', ccm := h3 }, if d.enc then s!"{line} rn={nonceStr rn} tn={nonceStr tn}" else line)
+            | none => ({ d with sys := s', ccm := h2 }, if d.enc then s!"{line} rn={nonceStr rn} tn=-" else line)
+          else ({ d with sys := s', ccm := h2 }, line)
+
+def main : IO Unit := lineLoop drvStep Drv.init
